@@ -13,6 +13,9 @@ PROPS = {
     "C04": {"level": "exploration", "parts": [part("agg", "stack", "TestVerifC04")]},
     "C05": {"level": "exploration", "parts": [part("agg", "stack", "TestVerifC05")]},
     "C13": {"level": "exploration", "parts": [part("order", "stack", "TestVerifC13")]},
+    "C06": {"level": "exploration", "parts": [
+        part("mapchoice", "stack", "TestVerifC06", variant="mapchoice"),
+        part("plain", "stack", "TestVerifC06")]},
     "C07": {"level": "model_checking", "parts": [part("bfs", "stack", "TestVerifC07")]},
     "C08": {"level": "exploration", "parts": [part("race", "stack", "TestVerifC08")]},
     "C09": {"level": "model_checking", "parts": [
@@ -26,5 +29,6 @@ PROPS = {
     "C11": {"level": "exploration", "parts": [
         part("real", "stack", "TestVerifC11"),
         part("small", "stack", "TestVerifC11", variant="smallbuf-64")]},
+    "C15": {"level": "exploration", "parts": [part("names", "stack", "TestVerifC15")]},
     "C12": {"level": "exploration", "parts": [part("agg", "stack", "TestVerifC12")]},
 }
